@@ -8,6 +8,7 @@ import (
 	"go/constant"
 	"go/token"
 	"go/types"
+	"os"
 	"sort"
 	"strings"
 
@@ -45,8 +46,9 @@ type Exec struct {
 	abstracted   map[string]bool // callees abstracted (havoc)
 	inlined      map[string]bool
 	usedContr    map[string]bool
-	callBindings []Value       // closure bindings of the call whose contract is being applied
-	callFn       *ssa.Function // and its function
+	callBindings []Value                 // closure bindings of the call whose contract is being applied
+	callFn       *ssa.Function           // and its function
+	hc           map[*Term]heapConstInfo // heap-constant registry of this run (names are reused across functions)
 	pointSetHit  map[int]bool
 	assertHit    map[int]bool    // program-point assertions of the top contract that met their call
 	assumedTerm  map[string]bool // callees under contract assumed to terminate (no `terminates` of their own)
@@ -497,9 +499,41 @@ func (eng *Engine) cfg(fn *ssa.Function) *cfgInfo {
 	visited := map[*ssa.BasicBlock]bool{}
 	var post []*ssa.BasicBlock
 	var dfs func(b *ssa.BasicBlock)
+	// innermost loop of every block
+	inner := map[*ssa.BasicBlock]*loopInfo{}
+	for _, li := range ci.loops {
+		for _, b := range li.blocks {
+			if cur, ok := inner[b]; !ok || len(li.blocks) < len(cur.blocks) {
+				inner[b] = li
+			}
+		}
+	}
+	inLoop := func(li *loopInfo, b *ssa.BasicBlock) bool {
+		for _, x := range li.blocks {
+			if x == b {
+				return true
+			}
+		}
+		return false
+	}
 	dfs = func(b *ssa.BasicBlock) {
 		visited[b] = true
-		for _, s := range b.Succs {
+		// successors that leave the innermost loop of b are visited first, so that they finish first and come
+		// later in the reverse postorder: the body of a loop is executed before the code after the loop, and the
+		// obligations of the body do not carry the assumptions of everything that follows the loop
+		succs := append([]*ssa.BasicBlock{}, b.Succs...)
+		if li := inner[b]; li != nil {
+			var out, in []*ssa.BasicBlock
+			for _, s := range succs {
+				if inLoop(li, s) {
+					in = append(in, s)
+				} else {
+					out = append(out, s)
+				}
+			}
+			succs = append(out, in...)
+		}
+		for _, s := range succs {
 			if ci.back[[2]int{b.Index, s.Index}] {
 				continue
 			}
@@ -720,13 +754,13 @@ func (ex *Exec) loopHead(fr *Frame, st *State, li *loopInfo, fname string) {
 		}
 		if freshOnly && !ws.all {
 			// objects allocated since entry may change arbitrarily: havoc the statically written keys, keep older objects
-			for k := range ws.keys {
+			for _, k := range sortedKeyList(ws.keys) {
 				lw.keys[k] = true
 			}
 		}
 		ex.havoc(st, lw, fmt.Sprintf("loop%d", li.ordinal), fr)
 		if freshOnly && !ws.all {
-			for k := range ws.keys {
+			for _, k := range sortedKeyList(ws.keys) {
 				srt := keySortReg[k]
 				if srt == nil || srt.Kind != SArray || srt.Idx != IntSort {
 					continue
@@ -781,6 +815,17 @@ func (ex *Exec) loopBack(fr *Frame, st *State, li *loopInfo, fname string) {
 	spec := ex.loopSpec(fr, li)
 	if spec == nil {
 		return
+	}
+	if os.Getenv("CSVQVC_LOOPS") != "" {
+		line := 0
+		for _, b := range li.blocks {
+			for _, in := range b.Instrs {
+				if p := ex.eng.fset.Position(in.Pos()); p.IsValid() && (line == 0 || p.Line < line) {
+					line = p.Line
+				}
+			}
+		}
+		fmt.Fprintf(os.Stderr, "LOOPBACK %s loop %d (first line %d) depth %d\n", shortName(fr.fn.String()), li.ordinal, line, fr.depth)
 	}
 	saved := fr.curLoop
 	fr.curLoop = li
@@ -842,7 +887,7 @@ func (ex *Exec) assumeInvariants(st *State) {
 
 // havoc replaces everything in ws by fresh symbols.
 func (ex *Exec) havoc(st *State, ws *WriteSet, why string, fr *Frame) {
-	for a := range ws.locals {
+	for _, a := range sortedAllocs(ws.locals) {
 		if _, ok := st.locals[a]; !ok {
 			continue
 		}
@@ -863,14 +908,14 @@ func (ex *Exec) havoc(st *State, ws *WriteSet, why string, fr *Frame) {
 		// ghost variables are specification state: program code cannot touch them, only contracts that name them
 		st.heap.base.except = append(append([]string{}, ws.except...), "GH:")
 		st.heap.base.exceptParent = old
-		for k := range ws.keys {
+		for _, k := range sortedKeyList(ws.keys) {
 			if srt, ok := keySortReg[k]; ok {
 				st.heap.m[k] = Fresh(k+"."+why, srt)
 				regHeapConst(st.heap.m[k], k, st.wm)
 			}
 		}
 	} else {
-		for k := range ws.keys {
+		for _, k := range sortedKeyList(ws.keys) {
 			srt, ok := keySortReg[k]
 			if !ok {
 				panic("havoc: unregistered heap key " + k)
@@ -883,7 +928,7 @@ func (ex *Exec) havoc(st *State, ws *WriteSet, why string, fr *Frame) {
 		ex.assumeInvariants(st)
 	}
 	// locals must be re-typed
-	for a := range ws.locals {
+	for _, a := range sortedAllocs(ws.locals) {
 		if cs, ok := st.locals[a]; ok {
 			ex.assumeTyped(st, Value{T: derefType(a.Type()), C: cs})
 		}
@@ -1265,6 +1310,24 @@ func (ex *Exec) mapUpdate(fr *Frame, st *State, i *ssa.MapUpdate, fname string) 
 	}
 	d, l, vs := mapKeys(mt)
 	ex.ownWriteCheck(fr, st, &Loc{Kind: LRef, Ref: m, Keys: []string{d}, T: types.Typ[types.Bool]}, fname, i.Pos())
+	if ex.topC != nil && ex.inSpec == 0 {
+		for gi, g := range ex.topC.MapKeys {
+			if !strings.HasPrefix(d, g.Prefix) {
+				continue
+			}
+			var top *Frame
+			for f := fr; f != nil; f = f.parent {
+				top = f
+			}
+			env := ex.frameEnv(top, st, top.entry).with("$key", Value{T: mt.Key(), C: []*Term{k}})
+			cond, err := env.boolExpr(g.Cond.E, true)
+			if err != nil {
+				ex.bindingError(shortName(ex.topFn.String()), "mapkeys", fmt.Sprint(gi+1), g.Cond, err)
+				continue
+			}
+			ex.prove(shortName(ex.topFn.String()), st, "mapkeys", g.Prefix+":"+ex.srcLabel(i.Pos()), cond, "key stored into "+d+" needs: "+g.Cond.Text, i.Pos())
+		}
+	}
 	ds := ArraySort(IntSort, ArraySort(ks, BoolSort))
 	dom := st.heap.Get(d, ds)
 	present := Select(Select(dom, m), k)
@@ -1733,4 +1796,31 @@ func isMapRangeLoop(li *loopInfo) bool {
 		}
 	}
 	return false
+}
+
+// deterministic iteration orders (Go map order would make the text of an obligation differ from run to run)
+func sortedKeyList(m map[string]bool) []string {
+	out := make([]string, 0, len(m))
+	for k := range m {
+		out = append(out, k)
+	}
+	sort.Strings(out)
+	return out
+}
+
+func sortedAllocs(m map[*ssa.Alloc]bool) []*ssa.Alloc {
+	out := make([]*ssa.Alloc, 0, len(m))
+	for a := range m {
+		out = append(out, a)
+	}
+	sort.Slice(out, func(i, j int) bool {
+		if out[i].Pos() != out[j].Pos() {
+			return out[i].Pos() < out[j].Pos()
+		}
+		if out[i].Comment != out[j].Comment {
+			return out[i].Comment < out[j].Comment
+		}
+		return out[i].Name() < out[j].Name()
+	})
+	return out
 }
